@@ -54,6 +54,7 @@ func genO(ch *vs.Choices, tier string) *oProg {
 	if tier == "thorough" {
 		n = 2 + ch.Draw(6)
 	}
+	big := ch.Bool(1, 4)
 	// t0 is the root; every other task is a dep of an earlier one (tree)
 	for i := 0; i <= n; i++ {
 		t := &oTask{Name: fmt.Sprintf("o%d", i)}
@@ -79,6 +80,10 @@ func genO(ch *vs.Choices, tier string) *oProg {
 					s = "\n"
 				case 5:
 					s = fmt.Sprintf("x%s.%d y z\n", c.ID, j)
+				}
+				if big && ch.Bool(1, 6) {
+					// a large chunk: output sizes must not matter either (buffer thresholds, chunked copies)
+					s = fmt.Sprintf("G%s.%d:", c.ID, j) + strings.Repeat("0123456789abcdef", 1024*(1+ch.Draw(6))) + "\n"
 				}
 				c.Chunks = append(c.Chunks, s)
 				c.Stderr = append(c.Stderr, ch.Bool(1, 6))
